@@ -531,6 +531,12 @@ def _c02_wiring(sub):
     return c02.r8_transfer_wiring(sub)
 
 
+def _c03_transfer_weights(sub):
+    from rules import c03
+    c03.r5_weight_provenance(sub)
+    c03.r7_surplus_factor(sub)
+
+
 def r5_exact_accumulation(ctx):
     """Reordering, splitting and merging ballots leave tallies unchanged only if weights and
     accumulators are exact rationals (Fraction addition is associative, float addition is not; a
@@ -545,7 +551,10 @@ def r5_exact_accumulation(ctx):
                      (c12.r1_filter_polarity, lambda o: "wrapped" in o.construct),
                      # every elected candidate's pile is transferred once, from the round's own profile, and everybody else's carried
                      # over: otherwise co-elected candidates are processed in set order and the result depends on it
-                     (_c02_wiring, lambda o: "transfer" in o.construct or "carried" in o.construct)):
+                     (_c02_wiring, lambda o: "transfer" in o.construct or "carried" in o.construct),
+                     # the weight a ballot carries out of a surplus transfer is weight * (tally - threshold) / tally as an exact
+                     # product: rounded per ballot it is no longer additive, and merging or splitting identical ballots moves tallies
+                     (_c03_transfer_weights, lambda o: True)):
         sub = type(ctx)(ctx.prog, ctx.prop, ctx.tier)
         fn(sub)
         for o in sub.obs:
